@@ -360,7 +360,7 @@ func (e *Env) RPackageNamesOwnership() {
 			n++
 			w := isWriteContext(stack)
 			fn := fd.Name.Name
-			ok2 := fn == "updateImports" || (w && fn == "RestoreFile") || (!w && fn == "restoreIdent")
+			ok2 := fn == "updateImports" || (w && (fn == "RestoreFile" || e.isResetCtx(fd))) || (!w && fn == "restoreIdent")
 			e.Run.Check("R-OWN", fmt.Sprintf("packageNames %s in %s", map[bool]string{true: "write", false: "read"}[w], load.FuncName(fd)), e.Prog.Pos(se.Pos()), ok2,
 				"the path→name table has one writer (updateImports, reset in RestoreFile) and one reader (restoreIdent)")
 			return true
